@@ -157,7 +157,7 @@ func Run(run *ev.Run) {
 		"decode direction: (type, value, format, variant) -> reference-encoded conforming document (key permutation, unknown extra members of every shape, whitespace, \\uXXXX and \\/ escapes, alternative float spellings; ROR2: key permutation, percent-encode-everything, unknown members) -> library reader -> must equal the value with defaults filled; " +
 		"envelope direction: loopback exchanges of every method kind checked for the protocol's envelope and header shape. distinct = distinct (direction, format, variant, value feature)")
 	run.Assume("the reference codecs are my reading of the Rest.li 2.0 protocol (bytes/fixed = one code point per byte; empty string = ''; per-context percent-encoding)",
-		"a nullable union with no member set is observed only ({} / null / absence all tolerated)", "v2 generation only")
+		"a nullable union with no member set is observed only ({} / null / absence all tolerated)", "both generations: the root module through types-only bindings written by its own generator from the same schema sets")
 	rng := rand.New(rand.NewSource(run.Seed + 3))
 	perType := run.Pick(60, 600)
 	for _, set := range all.Sets {
